@@ -298,11 +298,15 @@ DoFlush(ev) ==
   LET s == ev.s
       expErr == ~CanFlush(s)
       f == stores[s].file
-  IN /\ IF ~ev.err /\ ~expErr THEN Flush(s, ev.io.w, ev.pos)
+      \* a successful Flush must have appended a root record: the logical size
+      \* moves beyond the previous durable root
+      wroteRoot == f # NoFile /\ ev.pos > LastRootEnd(f) /\ ev.io.w # <<>>
+  IN /\ IF ~ev.err /\ ~expErr /\ wroteRoot THEN Flush(s, ev.io.w, ev.pos)
         ELSE IF f # NoFile /\ IsOpen(s) /\ ~stores[s].ro THEN WritesOnly(s, ev.io.w, ev.pos)
         ELSE Stay
      /\ Report(ErrChkC(ev, expErr, IF stores[s].ro THEN "C04:snapshot-flush-not-refused" ELSE "C02:flush-error-result")
                \o (IF f # NoFile /\ ~stores[s].ro THEN AppendChk(f, ev.io.w) ELSE ReadPathChk(ev))
+               \o (IF ~ev.err /\ ~expErr THEN Chk(wroteRoot, "C02:flush-wrote-no-root-record", "new root record", ev.io.w) ELSE <<>>)
                \o Chk(ev.io.t = <<>>, "C09:flush-truncated", <<>>, ev.io.t)
                \o (IF ~ev.err /\ ~expErr
                    THEN Chk(ev.pos = MaxEnd(0, ev.io.w) \/ ev.io.w = <<>>, "C09:size-vs-writes", ev.pos, ev.io.w)
@@ -369,6 +373,7 @@ DoCompact(ev) ==
   IN Stay /\ Report(Chk(ev.itemrecs = nlive, "C11:not-compact(item-records)", nlive, ev.itemrecs))
 
 DoCrash(ev) == CrashImage(ev.f, ev.f2, ev.upto, ev.len) /\ Report(<<>>)
+DoDropFile(ev) == DropFile(ev.f) /\ Report(<<>>)
 
 DoObs(ev) == Stay /\ Report(ObsChk(ev))
 DoDecode(ev) == Stay /\ Report(DecodeChk(ev))
@@ -386,11 +391,14 @@ DoRefs(ev) ==
                      THEN Chk(ev.outstanding = 0, "C15:references-left-after-close", 0, ev.outstanding)
                      ELSE <<>>))
 
+\* After the first mismatch of a history the model and the implementation may
+\* have diverged: the rest of that history is skipped (up to the next Reset).
 Step ==
   /\ l <= Len(Trace)
   /\ l' = l + 1
   /\ LET ev == Trace[l] IN
      CASE ev.e = "Reset" -> DoReset(ev)
+       [] bad # <<>> -> UNCHANGED <<stores, files, bad>>
        [] ev.e = "NewFile" -> DoNewFile(ev)
        [] ev.e = "NewMem" -> DoNewMem(ev)
        [] ev.e = "Open" -> DoOpen(ev)
@@ -416,6 +424,7 @@ Step ==
        [] ev.e = "CopyTo" -> DoCopyTo(ev)
        [] ev.e = "Compact" -> DoCompact(ev)
        [] ev.e = "Crash" -> DoCrash(ev)
+       [] ev.e = "DropFile" -> DoDropFile(ev)
        [] ev.e = "Obs" -> DoObs(ev)
        [] ev.e = "Decode" -> DoDecode(ev)
        [] ev.e = "Panic" -> DoPanic(ev)
